@@ -281,7 +281,7 @@ PROPS['C10'] = dict(
     level_note=NOTE_COMMON,
     technique='runtime monitor: order/derivative invariants on returned tables + differential check against the unconstrained fit, under ASan/UBSan',
     targets=[T('h_fit.cpp', 'prod'), T('h_fit.cpp', 'asan')],
-    passes=lambda tier, sc: [Pass('prod', 'h_fit.prod', 'C10', n(tier, 200, 3000, sc), stall_s=300, env={'OMP_NUM_THREADS': '3'}),
+    passes=lambda tier, sc: [Pass('prod', 'h_fit.prod', 'C10', n(tier, 600, 3000, sc), stall_s=300, env={'OMP_NUM_THREADS': '3'}),
                              Pass('asan', 'h_fit.asan', 'C10', n(tier, 60, 500, sc), stall_s=600, env={'OMP_NUM_THREADS': '2'})],
     level='exploration',
     rule='case = (random problem of 1-3 dims with orders 1-4, monotonic dimension, data kind in {noisy increasing, decreasing, oscillating, constant, gaussian noise, '
